@@ -18,7 +18,7 @@ PY = sys.executable
 KNOWN_FILE = os.environ.get("VERIF_KNOWN_FILE") or os.path.join(ROOT, "known_findings.json")   # the override is a debugging aid (list what an entry suppresses)
 
 TIER_OPTS = {
-    "quick": dict(query_timeout_ms=20000, path_cap=30000, max_witness=400, wall_cap_s=240),
+    "quick": dict(query_timeout_ms=20000, path_cap=30000, max_witness=400, wall_cap_s=480),
     "thorough": dict(query_timeout_ms=60000, path_cap=400000, max_witness=3000, wall_cap_s=1500),
 }
 
